@@ -241,6 +241,14 @@ impl World {
         let synthetic_pow = network != Network::Regtest;
         ic_btc_validation::verif_hooks::set_synthetic_pow(synthetic_pow);
         ic_btc_types::verif_hooks::clear_difficulty_overrides();
+        let mut net = net;
+        if cfg.genesis_difficulty != 0 {
+            // an anchor much heavier than its descendants: only the depth escape can stabilise it
+            let g = net.blocks.get_mut(&0).unwrap();
+            g.difficulty = cfg.genesis_difficulty as u128;
+            g.difficulty_overridden = true;
+            ic_btc_types::verif_hooks::set_difficulty_override(ic_btc_types::BlockHash::from(g.hash.to_vec()), g.difficulty);
+        }
         canister::fresh_memory(cfg.bucket_pages);
         let fees_explicit = cfg.fees.is_some();
         let init = InitConfig {
